@@ -53,12 +53,7 @@ def run(ck, models, tier):
                           fmt(cnt.e, 3), fmt(se, 4) if isinstance(se, E) else se, fmt(dst.e, 3), g.saved, g.len, g.addr), where(ev))
         ck.floor("R2.2", "restore-writes", nw, 1, tm.target)
         # every normal path of the destructor restores (a conditional restore leaves the patch in place on the other edge)
-        for v in tm.variants(g.drop_fn):
-            if v.status == "returned":
-                n_ = len(code_writes(v))
-                ck.ob("R2.2", "every-destructor-path-restores" if n_ == 1 else "destructor-path-without-restore", tm.target, n_ == 1,
-                      "a normally returning path of the guard's destructor performs %d restoring write(s)%s" % (
-                          n_, "" if n_ == 1 else " [%s]" % fmt_dec(v)))
+        destructor_always_restores(ck, tm, g, "R2.2")
         # ---------------- R2.1 / R2.4 per install root
         roots = patches.roots_and_roles(tm)
         ck.floor("R2.1", "public-install-roots", len(roots), 6, tm.target)
